@@ -21,6 +21,7 @@ import (
 	"os"
 	"path/filepath"
 	"reflect"
+	"regexp"
 	"sort"
 	"strconv"
 	"strings"
@@ -102,7 +103,51 @@ func leanStr(s string) string {
 	return b.String()
 }
 
+var baselineDir string
+
+var defLine = regexp.MustCompile(`(?m)^def ([A-Za-z_][A-Za-z0-9_]*) : (Nat|Int|String) := .*$`)
+var nsLine = regexp.MustCompile(`(?m)^namespace (\S+)$`)
+
+// keepBaselineDefs appends, per namespace, the definitions that the committed
+// baseline has and the fresh extraction lacks (a constant was renamed or
+// removed), so that the model still builds; each one is reported.
+func keepBaselineDefs(name string, data []byte) []byte {
+	if baselineDir == "" {
+		return data
+	}
+	base, err := os.ReadFile(filepath.Join(baselineDir, name))
+	if err != nil {
+		return data
+	}
+	have := map[string]bool{}
+	curNs := ""
+	for _, line := range strings.Split(string(data), "\n") {
+		if m := nsLine.FindStringSubmatch(line); m != nil {
+			curNs = m[1]
+		}
+		if m := defLine.FindStringSubmatch(line); m != nil {
+			have[curNs+"."+m[1]] = true
+		}
+	}
+	var add bytes.Buffer
+	curNs = ""
+	for _, line := range strings.Split(string(base), "\n") {
+		if m := nsLine.FindStringSubmatch(line); m != nil {
+			curNs = m[1]
+		}
+		if m := defLine.FindStringSubmatch(line); m != nil && !have[curNs+"."+m[1]] {
+			fmt.Fprintf(&add, "namespace %s\n%s  -- not found in the current source, baseline value kept\nend %s\n", curNs, line, curNs)
+			fmt.Printf("extract: static tie unavailable for %s.%s (not found in the current source; baseline value kept)\n", curNs, m[1])
+		}
+	}
+	if add.Len() == 0 {
+		return data
+	}
+	return append(append(data, '\n'), add.Bytes()...)
+}
+
 func writeIfChanged(path string, data []byte) {
+	data = keepBaselineDefs(filepath.Base(path), data)
 	old, err := os.ReadFile(path)
 	if err == nil && bytes.Equal(old, data) {
 		return
@@ -308,7 +353,9 @@ func configDefaults(p *pkg) [][2]string {
 func main() {
 	repo := flag.String("repo", "/repo", "repository root")
 	out := flag.String("out", "", "output directory (lean/Rdpgw/Generated)")
+	baseline := flag.String("baseline", "", "directory with the committed tables of the verified tree (fallback for names that disappeared)")
 	flag.Parse()
+	baselineDir = *baseline
 	if *out == "" {
 		fatal(fmt.Errorf("-out required"))
 	}
